@@ -18,14 +18,16 @@ impl Rec {
 }
 impl DynDigest for Rec {
     fn update(&mut self, data: &[u8]) {
-        for b in data {
-            if self.len < 16 {
-                self.buf[self.len] = *b;
-                self.len += 1;
-            } else {
-                self.overflow = true;
-            }
-        }
+        // one block copy instead of a per-octet loop: keeps the unwinding of the caller's loops cheap
+        let room = 16 - self.len;
+        let n = if data.len() > room {
+            self.overflow = true;
+            room
+        } else {
+            data.len()
+        };
+        self.buf[self.len..self.len + n].copy_from_slice(&data[..n]);
+        self.len += n;
     }
     fn finalize_into(self, _buf: &mut [u8]) -> Result<(), digest::InvalidBufferSize> {
         Ok(())
